@@ -198,6 +198,19 @@ def check(plan, ctx):
     tl = ctx.call("tolist", v.tolist)
     if [x is None for x in tl] != exp_na:
         raise Violation("tolist does not return None at exactly the missing positions", dtype=str(v.dtype), tolist=tl)
+    if n:
+        # an answer belongs to the caller: editing the returned mask in place (m |= other, m[:] = ...) must not show in
+        # later answers, neither for this vector nor for another one of the same length and type
+        m = ctx.call("is_na", v.is_na)
+        arr = np.asarray(m)
+        if arr.flags.writeable:
+            arr[...] = ~arr
+            again = [bool(x) for x in np.asarray(ctx.call("is_na", v.is_na))]
+            twin = [bool(x) for x in np.asarray(ctx.call("is_na", lambda: di.Vector(tl, v.dtype).is_na()))]
+            if again != exp_na or twin != exp_na:
+                raise Violation("is_na answers wrongly after an earlier answer was edited in place by the caller",
+                                dtype=str(v.dtype), again=again, twin=twin, want=exp_na)
+            ctx.cls("is_na_again_after_the_caller_edited_an_earlier_answer")
     if present == ["date", "dtime"]:
         # nothing can hold both without loss except object: every value must come back as it went in
         for j, it in enumerate(items):
